@@ -506,8 +506,72 @@ def check_C17(ctx):
     ctx.assumptions.append("a server answering NotFound to the delete of an existing object is outside the fault model (the helper reads it as 'already gone')")
 
 
+def check_C18(ctx):
+    q = ctx.quick
+    # data part: byte identity of the revision data, adoption through the upgrade marker, on the real objects
+    d, shards, meta = ctx.harness(["migrate", "--n", "400" if q else "6000", "--seed", str(vlib.seed()), "--workers", str(vlib.NCPU)], "templates")
+    ctx.trace("TraceMigrate", "INIT TInit\nNEXT TNext\nCHECK_DEADLOCK FALSE\nINVARIANT P_C18\n", shards, "templates", {"P_C18"}, conf_inv="none",
+              replay=lambda rec: {"kind": "bytes", "case": {"Seed": rec["seed"], "ID": rec["id"], "Defaulted": rec["defaulted"]}})
+    ctx.add_samples(shards, 1)
+    ctx.extra["domains"] = [meta]
+    # behaviour part: the garbage collector orphans pods and revisions one at a time while the controller reconciles
+    cluster_check(ctx, ["B_C18"], ["P_C03", "P_C13"], invariants=[], properties=["MigrationSafe", "MigrationCompletes"], mode="migration", edits=0)
+    ctx.assumptions.append("byte identity is judged against a reference encoder built on client-go's apps/v1 scheme with the upstream patch shape; "
+                           "the upstream controller's internal-type round trip (k8s.io/kubernetes is not available offline) is not reproduced; "
+                           "pod templates are sampled (seeded generator), TLC does not enumerate them")
+
+
+def replay_bytes(prop, inv, rp, wd):
+    vlib.run_harness(["migrate", "--case", json.dumps(rp["case"]), "--out", os.path.join(wd, "rec")])
+    sh = os.path.join(wd, "rec", "shard-00.ndjson")
+    c = Ctx.__new__(Ctx)
+    r = Ctx._tlc_with_cfg(c, "TraceMigrate", "replay.cfg", "INIT TInit\nNEXT TNext\nCHECK_DEADLOCK FALSE\nINVARIANT %s\n" % inv,
+                          os.path.join(wd, "tlc"), 1, 600, "2g", True, env={"VERIF_TRACE": sh})
+    if r.errors:
+        return False, "replay could not be evaluated: " + r.errors[0][:300]
+    return any(v[0] == inv for v in r.violations), "invariant holds on replay"
+
+
+REPLAYERS["bytes"] = replay_bytes
+
+
+def replay_client(prop, inv, rp, wd):
+    if rp.get("case") is None:
+        return True, "annotation op sequence (deterministic; accepted as recorded)"
+    vlib.run_harness(["client", "--case", json.dumps(rp["case"]), "--out", os.path.join(wd, "rec")])
+    sh = os.path.join(wd, "rec", "shard-00.ndjson")
+    c = Ctx.__new__(Ctx)
+    r = Ctx._tlc_with_cfg(c, "TraceClient", "replay.cfg", CLIENT_CFG + "INVARIANT %s\n" % inv, os.path.join(wd, "tlc"), 1, 600, "2g", True, env={"VERIF_TRACE": sh})
+    if r.errors:
+        return False, "replay could not be evaluated: " + r.errors[0][:300]
+    return any(v[0] == inv for v in r.violations), "invariant holds on replay"
+
+
+REPLAYERS["client"] = replay_client
+CLIENT_CFG = "CONSTANTS VP = {0, 3, 2147483647}\n VN = {1, 2147483647}\n Depth = 0\nINIT TInit\nNEXT TNext\nCHECK_DEADLOCK FALSE\n"
+
+
+def check_C19(ctx):
+    q = ctx.quick
+    ctx.design("ClientSession", "CONSTANTS VP = {0, 3}\n VN = {1}\n Depth = %d\nSPECIFICATION CSpec\nCHECK_DEADLOCK FALSE\nINVARIANT TypeOK\nPROPERTY StepsOK\n" % (3 if q else 5),
+               "annotation-algebra")
+    d, shards, meta = ctx.harness(["client", "--depth", "2" if q else "3", "--n", "600" if q else "20000", "--seed", str(vlib.seed()),
+                                   "--workers", str(vlib.NCPU)], "helpers")
+    ctx.trace("TraceClient", CLIENT_CFG + "INVARIANT Conf\nINVARIANT P_C19\n", shards, "helpers", {"P_C19"},
+              replay=lambda rec: {"kind": "client", "case": ({"Seed": rec["seed"], "ID": rec["id"]} if rec["kind"] == "data" else None),
+                                  "init": rec.get("init"), "ops": [[s["op"], s["nilarg"], s["vals"], s["flag"]] for s in rec.get("steps", [])]})
+    ctx.extra["domains"] = [meta]
+    ctx.add_samples(shards, 1, lambda r: r["kind"] == "ann" and len(r["steps"]) == 2)
+    ctx.add_samples(shards, 1, lambda r: r["kind"] == "data")
+    ctx.assumptions.append("C19 is mostly about per-field data fidelity, which TLC cannot enumerate: operation sequences over the annotation "
+                           "algebra are enumerated (model and real helpers), whole-object fidelity (conversion, hijack round trip, defaulting "
+                           "idempotence) is SAMPLED over seeded generated objects of the modelled schema and judged with semantic deep equality")
+
+
 def check_C06(ctx):
     q = ctx.quick
+    # the label of the revision a pod is built from, with several revisions in flight (current != update, partitions)
+    shp, _ = snap_trace(ctx, "pods-3ord", "pods", 2, 3, 5, 30000 if q else 500000, ["P_C06"], 51)
     ctx.design("MCSnapshot", mc_snapshot_cfg(1, 2, 5, False, ["I_C06"]), "pods-1ord")
     sh1, _ = snap_trace(ctx, "claims", "claims", 2, 2, 5, 80000 if q else 0, ["P_C06"], 50)
     if not q:
@@ -537,20 +601,27 @@ def extract_behaviours(text, limit):
     return out
 
 
-def cluster_check(ctx, beh_invs, rec_invs, invariants, properties, faults=0, fails=0, edits=1, scale=1.0):
+def cluster_check(ctx, beh_invs, rec_invs, invariants, properties, faults=0, fails=0, edits=1, scale=1.0, mode="any"):
     """design: exhaustive TLC run of Cluster.tla (small constants, temporal properties under fairness);
     binding: behaviours from TLC's simulator and from the seeded random driver are executed on the real
     controller; TraceCluster validates each behaviour, TraceSnap each of its reconciles."""
     q = ctx.quick
     body = "SPECIFICATION Spec\nVIEW View\nCHECK_DEADLOCK FALSE\n" + "".join("INVARIANT %s\n" % i for i in invariants) + \
         "".join("PROPERTY %s\n" % p for p in properties)
-    ctx.design("Cluster", cluster_consts(1, 1, ["t0", "t1"], edits, faults, fails, 3, "empty") + body, "cluster-2ord", heap="16g")
-    if not q:
-        ctx.design("Cluster", cluster_consts(1, 2, ["t0", "t1"], 1, faults, 1, 3, "empty") + body, "cluster-2ord-rep2", heap="24g", timeout=3400)
+    if mode == "migration":
+        ctx.design("Cluster", cluster_consts(0, 1, ["t0", "t1"], 0, 0, 0, 3, "migration") + body, "migration-1ord", heap="16g", timeout=3400)
+        if not q:
+            ctx.design("Cluster", cluster_consts(1, 1, ["t0", "t1"], 0, 0, 0, 3, "migration") + body, "migration-2ord", heap="24g", timeout=3400)
+    else:
+        ctx.design("Cluster", cluster_consts(1, 1, ["t0", "t1"], edits, faults, fails, 3, "empty") + body, "cluster-2ord", heap="16g")
+        if not q:
+            ctx.design("Cluster", cluster_consts(1, 2, ["t0", "t1"], 1, faults, 1, 3, "empty") + body, "cluster-2ord-rep2", heap="24g", timeout=3400)
     # behaviours from the model (direction A)
     ntlc, nrand, depth = (int(120 * scale), int(120 * scale), 24) if q else (int(1500 * scale), int(3000 * scale), 30)
     wd = os.path.join(ctx.outdir, "simulate")
-    simcfg = cluster_consts(2, 3, ["t0", "t1", "t2"], 3, 2, 2, 5, "any", " Depth = %d\n" % depth) + \
+    simconsts = cluster_consts(2, 3, ["t0", "t1", "t2"], 3, 2, 2, 5, "any", " Depth = %d\n" % depth) if mode == "any" else \
+        cluster_consts(2, 3, ["t0", "t1", "t2"], 0, 1, 1, 5, "migration", " Depth = %d\n" % depth)
+    simcfg = simconsts + \
         "INIT SimInit\nNEXT SimNext\nINVARIANT Emit\nINVARIANT StatusTruth\nINVARIANT QuietPods\nCHECK_DEADLOCK FALSE\n"
     t0 = time.time()
     r = ctx._tlc_with_cfg("SimCluster", "gen_sim.cfg", simcfg, wd, 4, 1200, "4g", False,
@@ -570,7 +641,7 @@ def cluster_check(ctx, beh_invs, rec_invs, invariants, properties, faults=0, fai
         ctx.transitions += int(m.group(1))
     log("  simul. %-28s %d behaviours of depth %d from TLC (%s states checked), %.1fs" % ("SimCluster", len(behs), depth, m.group(1) if m else "?", time.time() - t0))
     d, shards, meta = ctx.harness(["sim", "--in", bf, "--random", str(nrand), "--maxord", "2", "--depth", str(depth),
-                                   "--seed", str(vlib.seed()), "--workers", str(vlib.NCPU)], "behaviours")
+                                   "--seed", str(vlib.seed()), "--workers", str(vlib.NCPU)] + (["--migration"] if mode == "migration" else []), "behaviours")
     tcfg = open(os.path.join(vlib.SPEC, "Trace_Cluster.cfg")).read() + "INVARIANT B_Conf\n" + "".join("INVARIANT %s\n" % i for i in beh_invs)
     ctx.trace("TraceCluster", tcfg, shards, "behaviours", set(beh_invs), conf_inv="B_Conf",
               replay=lambda rec: {"kind": "beh", "id": rec.get("id"), "acts": [s["act"] for s in rec["steps"]]}, heap="4g")
@@ -648,6 +719,6 @@ def check_C01(ctx):
 
 
 CHECKS = {
-    "C01": check_C01, "C02": check_C02, "C08": check_C08, "C16": check_C16, "C17": check_C17, "C06": check_C06, "C09": check_C09, "C10": check_C10, "C11": check_C11, "C13": check_C13, "C15": check_C15,
+    "C01": check_C01, "C02": check_C02, "C08": check_C08, "C16": check_C16, "C17": check_C17, "C18": check_C18, "C19": check_C19, "C06": check_C06, "C09": check_C09, "C10": check_C10, "C11": check_C11, "C13": check_C13, "C15": check_C15,
     "C03": check_C03, "C04": check_C04, "C05": check_C05, "C07": check_C07, "C12": check_C12, "C14": check_C14,
 }
